@@ -584,6 +584,17 @@ func (w *World) computeModsets() {
 					ms[h] = true
 				}
 			}
+			for _, cls := range ct.At {
+				for _, cl := range cls {
+					if cl.Kind == "ghostset" {
+						// positional ghost assignment: the accessor's heap (the location may name locals)
+						loc := strings.TrimSpace(cl.Src[:strings.Index(cl.Src, "=")])
+						if i := strings.Index(loc, "("); i > 0 {
+							ms["X$_$"+loc[:i]] = true
+						}
+					}
+				}
+			}
 		}
 		add := func(hs ...string) {
 			for _, h := range hs {
